@@ -8,6 +8,7 @@ Functions under contract (parsed from /repo on every run, executed symbolically)
                            read_stack (both argument forms; ply count 1..3, everything else symbolic)
 """
 import sys
+import itertools
 import time
 from fractions import Fraction
 
@@ -487,6 +488,29 @@ def part_rebuild(led):
 _RC = {}
 
 
+def replay_second_call():
+    """real read_stack called twice in one process: the second laminate against the same laminate in the per-ply form"""
+    if 'second' in _RC:
+        return _RC['second']
+    from ..pyreplay import run_real
+    script = '''
+import numpy as np
+from compmech.composite.laminate import read_stack
+lp1 = (130e9, 9e9, 0.31, 5.2e9, 4.1e9, 3.3e9); lp2 = (70e9, 70e9, 0.3, 26.9e9, 26.9e9, 26.9e9)
+read_stack([0, 90, -45, 45], plyt=1.25e-4, laminaprop=lp1)
+read_stack([0, 90, -45, 45], plyts=[1e-4, 2e-4, 1e-4, 2e-4], laminaprops=[lp1]*4, offset=1e-4)
+stack = [30, -30, 0, 60, -60, 90]
+second = read_stack(stack, plyt=1.9e-4, laminaprop=lp2, offset=4e-4)
+ref = read_stack(stack, plyts=[1.9e-4]*6, laminaprops=[lp2]*6, offset=4e-4)
+out = {"plies": len(second.plies), "thickness": float(second.t), "max_rel_deviation_ABDE": float(abs(second.ABDE - ref.ABDE).max()/abs(ref.ABDE).max())}
+'''
+    r = run_real(script, {})
+    r['reproduced'] = bool(r.get('raised') or r.get('plies') != 6 or r.get('max_rel_deviation_ABDE', 0) > 1e-12)
+    r['input'] = 'read_stack (uniform form, then per-ply form) on a 4-ply laminate, then read_stack([30,-30,0,60,-60,90], plyt=1.9e-4, ..., offset=4e-4)'
+    _RC['second'] = r
+    return r
+
+
 def replay_constitutive():
     """real code against an independent numerical through-thickness integration"""
     if 'r' not in _RC:
@@ -550,8 +574,8 @@ def part_read_stack(led):
     func = F + 'laminate.py:read_stack'
     led.function(func)
     led.bounded_item('read_stack list construction (zip loop): ply count N in {1,2,3}; all other inputs symbolic')
-    for N in (1, 2, 3):
-        for form in ('per-ply', 'uniform'):
+    for N, form, history in itertools.product((1, 2, 3), ('per-ply', 'uniform'), ('fresh', 'after-another-laminate')):
+        if True:
             it = mk_interp()
             mod = it.module('compmech.composite.laminate')
             matmod = it.module('compmech.composite.matlamina')
@@ -582,8 +606,19 @@ def part_read_stack(led):
             for m in mats:
                 it.facts += [to_z3(m[0]) > 0, to_z3(m[1]) > 0]
             f = mod.g['read_stack']
-            res = it.explore(lambda: it.call(f, [th], kwargs))
-            tag = '%s,N=%d' % (form, N)
+            it.facts += [to_z3(real('t_other')) > 0, to_z3(real('E1_other')) > 0, to_z3(real('E2_other')) > 0] + [to_z3(real('t_other%d' % i)) > 0 for i in range(4)]
+
+            def run(f=f, th=th, kwargs=kwargs):
+                if history != 'fresh':
+                    # the function keeps no state between calls: an earlier, different laminate (four plies, other thickness and
+                    # material, both argument forms) leaves the result unchanged
+                    other = tuple(real(n + '_other') for n in ('E1', 'E2', 'nu12', 'G12', 'G13', 'G23'))
+                    tho = [real('tho%d' % i) for i in range(4)]
+                    it.call(f, [tho], dict(plyt=real('t_other'), laminaprop=other))
+                    it.call(f, [tho], dict(plyts=[real('t_other%d' % i) for i in range(4)], laminaprops=[other] * 4, offset=real('offset_other')))
+                return it.call(f, [th], kwargs)
+            res = it.explore(run)
+            tag = '%s,N=%d%s' % (form, N, '' if history == 'fresh' else ',' + history)
             for path, out in res:
                 if out[0] == 'raise':
                     led.fail('%s/%s/no-exception' % (func, tag), func, {'raises': out[1].tname, 'args': [str(a) for a in out[1].eargs]},
@@ -610,8 +645,8 @@ def part_read_stack(led):
                     if ok:
                         led.ok(name, func, backend='normal-form(bounded N)')
                     else:
-                        led.fail(name, func, {'residual': why}, signature=key, replay=replay_constitutive())
-                if N >= 2 and form == 'per-ply':
+                        led.fail(name, func, {'residual': why}, signature=key, replay=replay_constitutive() if history == 'fresh' else replay_second_call())
+                if N >= 2 and form == 'per-ply' and history == 'fresh':
                     lemma_code_level(led, func, it, f, th, ts, mats, d, lam)
             led.solver_time('z3-feasibility', it.solver_time)
 
